@@ -127,7 +127,7 @@ def case_input(o):
 
 
 def run(ctx):
-    n = 13000 if ctx.thorough() else 1300
+    n = 13000 if ctx.thorough() else 1000
     proof_ok, detail = True, {}
     if not os.path.exists(os.path.join(vf.COQ, "Props", "C04.v")):
         proof_ok = False
@@ -236,4 +236,10 @@ def run(ctx):
         if ctx.finding(key, what, {"case": case_input(o), "observation": o,
                                    "how": "go/cmd/nodeidharness -cases <file with the 'case' object on one line>; ./check C04 --replay <this file>"}):
             new += 1
+    if mism and new == 0:
+        # the model and the implementation disagree on a concrete input, but the property's own oracle holds on it
+        ctx.violation({"broken": "C04: model/implementation correspondence no longer checks (the implementation's text form changed)",
+                       "case": case_input(mism[0]), "observation": mism[0], "detail": detail,
+                       "how": "./check C04 --replay <this file> re-runs the case and shows the disagreement"}, no_input=True)
+        return
     ctx.conclude(proof_ok, corr_ok, new, detail)
